@@ -63,7 +63,12 @@ def handlePair : Handler := fun j a => do
   if contain sb sa != cont then a := a.mismatch s!"c13pair {id}: Contain impl={cont} model={contain sb sa}"
   if equal sb sa != eq then a := a.mismatch s!"c13pair {id}: Equal impl={eq} model={equal sb sa}"
   if mDiff != diff then a := a.mismatch s!"c13pair {id}: diff impl='{diff}' model='{mDiff}'"
-  if canon mMinus != canon minus then a := a.mismatch s!"c13pair {id}: minus impl={repr (canon minus)} model={repr (canon mMinus)}"
+  if canon mMinus != canon minus then
+    a := a.mismatch s!"c13pair {id}: minus impl={repr (canon minus)} model={repr (canon mMinus)}"
+    -- the model's difference IS the set difference (theorem `C13.gtidMinus_spec` on well-formed sets), so an
+    -- implementation that answers something else on a well-formed pair does not name the set difference
+    if wfB sa && wfB sb then
+      a := a.violationSig "C13:set-difference-wrong" s!"{id}: a={toText sa} b={toText sb} impl={repr (canon minus)} expected={repr (canon mMinus)}"
   if toText sa != atext then a := a.mismatch s!"c13pair {id}: String() impl='{atext}' model='{toText sa}'"
   match jOpt j "union" with
   | some uj =>
